@@ -200,6 +200,13 @@ theorem codeVars_cgE (mod : String) (ρ φ : String → Option String) : ∀ (n 
           · simp [codeVars, var?] at hm
       case call sp ty base args sw =>
         cases base <;> try (simp [cgE, codeVars] at hm; done)
+        case member msp mty b nm mop =>
+          cases mop <;> cases args <;> cases sw <;> try (simp [cgE, codeVars] at hm; done)
+          simp only [Frag.depthGE] at hd
+          have hc : codeVars [((Instr.member nm : SInstr), msp), (.copyPush (.int 0), sp), (.callVal, sp)] = [] := rfl
+          simp only [cgE, codeVars_append, hc, List.append_nil] at hm
+          obtain ⟨x, hx, h⟩ := ihE b lm (by omega) m hm
+          exact ⟨x, by simp [Frag.varsGE, Frag.varsGArgs, hx], h⟩
         rename_i isp ity name g f si
         simp only [Frag.depthGE] at hd
         simp only [cgE, codeVars_append, List.mem_append] at hm
@@ -383,20 +390,6 @@ theorem genG_stmt (mod fn : String) (φ : String → Option String) (T : List St
         (fun x hx => h x (List.mem_append.mpr (Or.inl hx)))
     have hnoVar : ∀ (i : SInstr) (sp : Span), var? i = none → ∀ m ∈ codeVars [(i, sp)], False := by
       intro i sp h m hm; simp [codeVars, h] at hm
-    have hLl : ∀ (env : CEnv) (e : Expr) (lm : LM), (∀ x ∈ Frag.namesL e, x ∈ T) →
-        ∀ m ∈ codeVars (cgL mod (ρS env.scopes) φ e lm).1, m ∈ liveNames T env.scopes := by
-      intro env e lm h
-      cases e <;> try exact hEl env _ lm h
-      rename_i csp cty base args sw
-      cases base <;> try exact hEl env _ lm h
-      rename_i msp mty b nm mop
-      cases mop <;> try exact hEl env _ lm h
-      cases args <;> try exact hEl env _ lm h
-      cases sw <;> try exact hEl env _ lm h
-      intro m hm
-      have hc : codeVars [((Instr.member nm : SInstr), msp), (.copyPush (.int 0), csp), (.callVal, csp)] = [] := rfl
-      simp only [cgL, codeVars_append, hc, List.append_nil] at hm
-      exact hEl env b lm h m hm
     refine ⟨?_, ?_, ?_⟩
     · intro loops st env hd hT hws
       cases st
@@ -464,7 +457,7 @@ theorem genG_stmt (mod fn : String) (φ : String → Option String) (T : List St
         cases nc
         · simp only [Frag.identsGS, List.mem_cons] at hT
           simp only [cgS]
-          have hlive := hLl env e env.lm (fun x hx => hT x (Or.inr hx))
+          have hlive := hEl env e env.lm (fun x hx => hT x (Or.inr hx))
           refine GenG.fresh mod T env name (hT name (Or.inl rfl)) _ ?_ ?_ _ ?_
           · rfl
           · exact Nat.le_succ _
